@@ -307,6 +307,9 @@ struct RuleLine {
   /// that are resolved without consuming data: plain aliases, operands of operators, `~x`, `&x`,
   /// generic arguments
   unguarded: Vec<String>,
+  /// the subset of `unguarded` that is reached through something other than a plain alias or a type
+  /// choice: an operand of a control or range operator, an unwrap (~), a generic application or argument
+  mediated: Vec<String>,
   /// generic rule names applied inside their own argument list, e.g. g<g<int>>
   self_applied: bool,
 }
@@ -329,6 +332,7 @@ fn parse_rules(schema: &str) -> Vec<RuleLine> {
       continue;
     }
     let mut unguarded = Vec::new();
+    let mut mediated: Vec<String> = Vec::new();
     let mut depth = 0i32;
     let mut in_str = false;
     let mut cur = String::new();
@@ -358,6 +362,22 @@ fn parse_rules(schema: &str) -> Vec<RuleLine> {
           // a control operator (".size") is written with a leading dot and never collected
           if depth == 0 && !id.is_empty() {
             unguarded.push(id.clone());
+            // what surrounds the reference?
+            let end = i; // one past the identifier (cur ended at i)
+            let start = end.saturating_sub(cur.chars().count());
+            let before: String = cs[..start].iter().collect::<String>().trim_end().to_string();
+            let after: String = cs[end.min(cs.len())..].iter().collect::<String>().trim_start().to_string();
+            let op_before = before.ends_with('~')
+              || before.ends_with("..")
+              || {
+                // a control operator name right before: ".size", ".join", ...
+                let t = before.trim_end_matches(|ch: char| ch.is_ascii_alphanumeric() || ch == '-');
+                t.len() < before.len() && t.ends_with('.') && !t.ends_with("..")
+              };
+            let op_after = after.starts_with('.') || after.starts_with('<');
+            if op_before || op_after || !generic_stack.is_empty() {
+              mediated.push(id.clone());
+            }
           }
           last_ident = id;
           cur.clear();
@@ -417,7 +437,7 @@ fn parse_rules(schema: &str) -> Vec<RuleLine> {
       }
       i += 1;
     }
-    out.push(RuleLine { name, unguarded, self_applied });
+    out.push(RuleLine { name, unguarded, mediated, self_applied });
   }
   out
 }
@@ -435,8 +455,10 @@ pub fn unguarded_rule_cycle(schema: &str) -> bool {
       }
     }
   }
-  // DFS for a cycle
   fn reach<'a>(edges: &BTreeMap<&'a str, Vec<&'a str>>, from: &'a str, target: &'a str, seen: &mut Vec<&'a str>) -> bool {
+    if from == target {
+      return true;
+    }
     for n in edges.get(from).cloned().unwrap_or_default() {
       if n == target {
         return true;
@@ -450,10 +472,30 @@ pub fn unguarded_rule_cycle(schema: &str) -> bool {
     }
     false
   }
-  for n in &names {
-    let mut seen = Vec::new();
-    if reach(&edges, n, n, &mut seen) {
-      return true;
+  // a cycle that contains at least one edge through an operator, an unwrap or a generic application /
+  // argument: plain alias cycles (a = b, b = a; r = r / int) are caught by the validators' own guard today
+  // and are NOT part of the known finding
+  // nodes that lie on a cycle
+  let on_cycle: Vec<&str> = names
+    .iter()
+    .cloned()
+    .filter(|n| {
+      let mut seen = Vec::new();
+      edges.get(n).cloned().unwrap_or_default().iter().any(|k| reach(&edges, k, n, &mut seen))
+    })
+    .collect();
+  for r in &rules {
+    for m in &r.mediated {
+      if names.contains(&m.as_str()) {
+        // the mediated reference leads into a cycle (possibly the one it is part of): ~v with v = v;
+        // b .size 3 with b = a, a = b .size 3
+        for c in &on_cycle {
+          let mut seen = Vec::new();
+          if reach(&edges, m.as_str(), c, &mut seen) {
+            return true;
+          }
+        }
+      }
     }
   }
   false
